@@ -148,6 +148,10 @@ class SimplicialComplex:
         :param bs: the simplices
         :param attr: (optional) attributes for any simplices added"""
         for b in bs:
+            # check the whole set before we create anything
+            if b in self and self.orderOf(b) != 0:
+                raise ValueError("Higher-order simplex {b} in basis set")
+        for b in bs:
             if b in self:
                 if self.orderOf(b) != 0:
                     # simplex isn't an 0-simplex, so not a basis
